@@ -12,7 +12,7 @@ from ..vlib import core
 from .. import ag_common as AG
 
 KINDS = {"leaf_grad": "C03", "once": "C03", "order": "C03", "error": "C03", "value": "C03"}
-ALL = {"add", "mul", "sub", "neg", "sq", "sum", "idx", "stack", "unbind", "clone"}
+ALL = {"add", "mul", "sub", "neg", "sq", "sum", "idx", "stack", "unbind", "clone", "gather"}
 VS = [dict(vec=True, rg=True), dict(vec=False, rg=True)]
 SS = [dict(vec=False, rg=True), dict(vec=False, rg=False)]
 VN = [dict(vec=True, rg=False), dict(vec=False, rg=True)]
@@ -37,7 +37,7 @@ def run(ctx):
                 # an earlier result (root or interior of a previous backward) reused inside a new graph that is differentiated again
                 ("prog-reuse", dict(MaxNodes=4, GAlpha={-2}, Ops={"add", "mul"}, MaxHist=4, MaxBackward=2, Acts={"op", "bw"}, InitLeaves=SS), 40000),
                 # a vector consumed through a multi-output / indexing operator AND by another operator (fan-out across unbind)
-                ("prog-fanout", dict(MaxNodes=5, GAlpha={-2, 3}, Ops={"unbind", "idx", "sum", "add", "mul"}, UseVec=True, MaxHist=4, MaxBackward=1,
+                ("prog-fanout", dict(MaxNodes=5, GAlpha={-2, 3}, Ops={"unbind", "idx", "gather", "sum", "add"}, UseVec=True, MaxHist=4, MaxBackward=1,
                                      Acts={"op", "bw"}, InitLeaves=[dict(vec=True, rg=True)]), 30000)]
         sims = [("sim", dict(MaxNodes=9, GAlpha={1, -2, 3}, Ops=ALL, UseVec=True, MaxHist=9, MaxBackward=1, Acts={"op", "bw"},
                              InitLeaves=[dict(vec=False, rg=True), dict(vec=True, rg=True), dict(vec=False, rg=False)]), 80)]
